@@ -784,7 +784,8 @@ PROPS["C26"] = {
                  "C26_message_on_a_new_topic_is_registered_and_delivered",
                  "C26_sleep_cycle_delivers_every_message_once", "C26_repeated_sleep_cycles", "C26_sleep_cycle_with_a_qos1_message", "C26_sleep_cycle_with_qos1_messages", "C26_sleep_cycle_with_qos1_messages_delivery",
                  "C26_sleep_cycle_with_a_qos2_message_holds_the_PUBREL",
-                 "C26_qos2_message_is_delivered_once_over_two_sleep_cycles", "C26_refuted"],
+                 "C26_qos2_message_is_delivered_once_over_two_sleep_cycles", "C26_ping_in_the_awake_state",
+                 "C26_sleep_cycle_then_ping", "C26_refuted"],
     "drivers": ["drv_e2e.test"],
     "units": [Unit("drv_e2e", unit_e2e)],
     "mismatch_kinds": [r"."],
